@@ -6,7 +6,8 @@ The central device is the relation `Moves inp b c c'`: `c'` is obtained from `c`
 elementary configuration updates (`Move`). Every function of the model (`fetch`, `xdecode`,
 `skipBroken`, `recoverLoop`, `recoverFromError`, `onError`, `xstep`) is shown to act by `Moves`, so
 that each invariant has to be checked against the handful of elementary moves only.
-The flag `b` says whether moves that touch `shiftCounter` (`shift`, `bump`) are allowed.
+The flags `(b, e)` say whether moves that touch `shiftCounter` (`shift`, `bump`), resp. the moves of the
+error branch (`emitError`, `setRec`), are allowed.
 -/
 namespace TmVerif.LRX
 open TmVerif.LR
@@ -21,24 +22,24 @@ def XEv.isError : XEv → Bool
   | .node _ _ _ => false
   | .error _ _ => true
 
-inductive Move (inp : Input) : Bool → XCfg → XCfg → Prop
+inductive Move (inp : Input) : Bool × Bool → XCfg → XCfg → Prop
   | fetch (b) (c : XCfg) : c.next = none →
       Move inp b c { c with next := some (inp.tok c.pos), pos := c.pos + 1 }
   | dropNext (b) (c : XCfg) : Move inp b c { c with next := none }
   | setStack (b) (c : XCfg) (s : List Entry) (q : Int) : Move inp b c { c with stack := s, state := q }
   | emitNodes (b) (c : XCfg) (evs : List XEv) : (∀ e ∈ evs, e.isNode = true) →
       Move inp b c { c with evs := evs ++ c.evs }
-  | emitError (b) (c : XCfg) (tk : Tok) : c.next = some tk → c.recovering = 0 →
-      Move inp b c { c with lastErr := (tk.off, tk.endo), evs := .error tk.off tk.endo :: c.evs }
-  | setRec (b) (c : XCfg) : (c.recovering = 0 → ∃ o e rest, c.evs = .error o e :: rest) →
-      Move inp b c { c with recovering := 4 }
-  | shift (c : XCfg) (tk : Tok) (q : Int) (sc : Nat) : c.next = some tk →
-      Move inp true c { c with stack := ⟨tk.sym, tk.off, tk.endo, q⟩ :: c.stack, state := q,
-                               next := if tk.sym ≠ 0 then none else c.next,
-                               recovering := c.recovering - 1, shiftCounter := sc }
-  | bump (c : XCfg) (sc : Nat) : Move inp true c { c with shiftCounter := sc }
+  | emitError (b : Bool) (c : XCfg) (tk : Tok) : c.next = some tk → c.recovering = 0 →
+      Move inp (b, true) c { c with lastErr := (tk.off, tk.endo), evs := .error tk.off tk.endo :: c.evs }
+  | setRec (b : Bool) (c : XCfg) : (c.recovering = 0 → ∃ o e rest, c.evs = .error o e :: rest) →
+      Move inp (b, true) c { c with recovering := 4 }
+  | shift (e : Bool) (c : XCfg) (tk : Tok) (q : Int) (sc : Nat) : c.next = some tk →
+      Move inp (true, e) c { c with stack := ⟨tk.sym, tk.off, tk.endo, q⟩ :: c.stack, state := q,
+                                    next := if tk.sym ≠ 0 then none else c.next,
+                                    recovering := c.recovering - 1, shiftCounter := sc }
+  | bump (e : Bool) (c : XCfg) (sc : Nat) : Move inp (true, e) c { c with shiftCounter := sc }
 
-inductive Moves (inp : Input) (b : Bool) : XCfg → XCfg → Prop
+inductive Moves (inp : Input) (b : Bool × Bool) : XCfg → XCfg → Prop
   | refl (c : XCfg) : Moves inp b c c
   | tail {a m c : XCfg} : Moves inp b a m → Move inp b m c → Moves inp b a c
 
@@ -50,7 +51,7 @@ theorem Moves.trans {inp b a m c} (h1 : Moves inp b a m) (h2 : Moves inp b m c) 
   | refl => exact h1
   | tail _ hm ih => exact .tail ih hm
 
-theorem Move.weaken {inp b c c'} (h : Move inp b c c') : Move inp true c c' := by
+theorem Move.weaken {inp b c c'} (h : Move inp b c c') : Move inp (true, true) c c' := by
   cases h with
   | fetch _ _ h => exact .fetch _ _ h
   | dropNext => exact .dropNext _ _
@@ -58,17 +59,17 @@ theorem Move.weaken {inp b c c'} (h : Move inp b c c') : Move inp true c c' := b
   | emitNodes _ _ _ h => exact .emitNodes _ _ _ h
   | emitError _ _ _ h h' => exact .emitError _ _ _ h h'
   | setRec _ _ h => exact .setRec _ _ h
-  | shift _ _ _ _ h => exact .shift _ _ _ _ h
-  | bump => exact .bump _ _
+  | shift _ _ _ _ _ h => exact .shift _ _ _ _ _ h
+  | bump => exact .bump _ _ _
 
-theorem Moves.weaken {inp b c c'} (h : Moves inp b c c') : Moves inp true c c' := by
+theorem Moves.weaken {inp b c c'} (h : Moves inp b c c') : Moves inp (true, true) c c' := by
   induction h with
   | refl => exact .refl _
   | tail _ hm ih => exact .tail ih hm.weaken
 
 /-! ### fetch, xdecode -/
 
-theorem fetch_moves (inp : Input) (b : Bool) (c : XCfg) : Moves inp b c (c.fetch inp).1 := by
+theorem fetch_moves (inp : Input) (b : Bool × Bool) (c : XCfg) : Moves inp b c (c.fetch inp).1 := by
   unfold XCfg.fetch
   split
   · exact .refl _
@@ -92,7 +93,7 @@ theorem xdecode_cases {x : XTables} {inp : Input} {c c1 : XCfg} {a : Act}
     obtain ⟨_, _, h⟩ := h
     cases h; exact .inl rfl
 
-theorem xdecode_moves {x : XTables} {inp : Input} {c c1 : XCfg} {a : Act} (b : Bool)
+theorem xdecode_moves {x : XTables} {inp : Input} {c c1 : XCfg} {a : Act} (b : Bool × Bool)
     (h : xdecode x inp c = some (c1, a)) : Moves inp b c c1 := by
   rcases xdecode_cases h with h | h
   · subst h; exact .refl _
@@ -100,7 +101,7 @@ theorem xdecode_moves {x : XTables} {inp : Input} {c c1 : XCfg} {a : Act} (b : B
 
 /-! ### recovery -/
 
-theorem skipBroken_moves (inp : Input) (b : Bool) (can : Int → Bool) (fuel : Nat) (c : XCfg) (e : Nat) :
+theorem skipBroken_moves (inp : Input) (b : Bool × Bool) (can : Int → Bool) (fuel : Nat) (c : XCfg) (e : Nat) :
     Moves inp b c (skipBroken inp can fuel c e).1 := by
   induction fuel generalizing c e with
   | zero => exact .refl _
@@ -111,7 +112,7 @@ theorem skipBroken_moves (inp : Input) (b : Bool) (can : Int → Bool) (fuel : N
     · exact ((fetch_moves inp b c).tail (.dropNext _ _)).trans (ih _ _)
     · exact fetch_moves inp b c
 
-theorem recoverLoop_moves {x : XTables} {inp : Input} {fin : Int} {rp : List Nat} (b : Bool)
+theorem recoverLoop_moves {x : XTables} {inp : Input} {fin : Int} {rp : List Nat} (b : Bool × Bool)
     (fuel : Nat) (c : XCfg) (syms : List Int) (s e : Nat) (c' : XCfg)
     (h : recoverLoop x inp fin rp fuel c syms s e = some (some c')) : Moves inp b c c' := by
   induction fuel generalizing c syms s e with
@@ -138,7 +139,7 @@ theorem recoverLoop_moves {x : XTables} {inp : Input} {fin : Int} {rp : List Nat
             subst h
             exact hsk.tail (.setStack _ _ _ _)
 
-theorem recoverFromError_moves {x : XTables} {inp : Input} {fin : Int} (b : Bool) (c c' : XCfg)
+theorem recoverFromError_moves {x : XTables} {inp : Input} {fin : Int} (b : Bool × Bool) (c c' : XCfg)
     (h : recoverFromError x inp fin c = some (some c')) : Moves inp b c c' := by
   unfold recoverFromError at h
   simp only at h
@@ -192,16 +193,16 @@ theorem onError_eq_norec {x : XTables} (inp : Input) (fin : Int) (stop : Bool) (
   unfold onError
   simp [hr]
 
-theorem errPrelude_moves (inp : Input) (b : Bool) (c : XCfg) : Moves inp b c (errPrelude inp c) := by
+theorem errPrelude_moves (inp : Input) (b : Bool) (c : XCfg) : Moves inp (b, true) c (errPrelude inp c) := by
   unfold errPrelude
   split
   · next h0 =>
-    exact (fetch_moves inp b c).tail
+    exact (fetch_moves inp (b, true) c).tail
       (.emitError _ _ _ (fetch_next inp c) (by rw [fetch_recovering]; exact h0))
   · exact .refl _
 
 theorem errPrelude_setRec (inp : Input) (b : Bool) (c : XCfg) :
-    Move inp b (errPrelude inp c) { errPrelude inp c with recovering := 4 } := by
+    Move inp (b, true) (errPrelude inp c) { errPrelude inp c with recovering := 4 } := by
   refine .setRec _ _ ?_
   unfold errPrelude
   split
@@ -209,10 +210,10 @@ theorem errPrelude_setRec (inp : Input) (b : Bool) (c : XCfg) :
   · next h0 => intro h; exact absurd h h0
 
 theorem onError_moves {x : XTables} (inp : Input) (b : Bool) (fin : Int) (stop : Bool) (c : XCfg) :
-    Moves inp b c (onError x inp fin stop c).cfg := by
+    Moves inp (b, true) c (onError x inp fin stop c).cfg := by
   cases hr : x.recovering
   · rw [onError_eq_norec inp fin stop c hr]
-    exact fetch_moves inp b c
+    exact fetch_moves inp (b, true) c
   · rw [onError_eq_rec inp fin stop c hr]
     have h1 := errPrelude_moves inp b c
     have h2 := h1.tail (errPrelude_setRec inp b c)
@@ -221,7 +222,7 @@ theorem onError_moves {x : XTables} (inp : Input) (b : Bool) (fin : Int) (stop :
     · split
       · exact h2
       · exact h2
-      · next h => exact h2.trans (recoverFromError_moves b _ _ h)
+      · next h => exact h2.trans (recoverFromError_moves (b, true) _ _ h)
 
 /-! ### applyRuleEvents only produces listener calls -/
 
